@@ -96,13 +96,18 @@ def programs(tier, seed):
         aprofs = [("join_async", (2, 2), 1, False), ("join_async", (1, 2, 2), 1, False), ("try_join_async", (2, 1), 1, False),
                   ("join_async_spawn", (2, 1), 1, False), ("try_join_async_spawn", (1, 2), 1, False)]
     else:
-        aprofs = [("join_async", (2, 2), 2, True), ("join_async", (1, 2, 2), 1, True), ("join_async", (2, 2, 1), 1, True), ("join_async", (3, 1, 2), 1, True),
-                  ("join_async", (3, 3), 1, True),
-                  ("try_join_async", (2, 1), 2, True), ("try_join_async", (2, 2), 1, True), ("try_join_async", (1, 2), 1, True),
-                  ("join_async_spawn", (2, 2), 1, True), ("join_async_spawn", (1, 2), 1, True), ("try_join_async_spawn", (1, 2), 1, True), ("try_join_async_spawn", (2, 2), 0, True)]
-    for macro, prof, gates, heavy in aprofs:
+        # (macro, profile, max pending count, heavy, cheap later steps).  Real pending points in later steps only where at
+        # most one branch has a later step: with two such branches CBMC needs more than the 12 GB cap (measured).
+        aprofs = [("join_async", (2, 1), 2, True, False), ("join_async", (1, 2), 1, True, False), ("join_async", (1, 2, 1), 1, True, False), ("join_async", (3, 1), 1, True, False),
+                  ("try_join_async", (2, 1), 2, True, False), ("try_join_async", (1, 2), 1, True, False),
+                  ("join_async_spawn", (1, 2), 1, True, False), ("try_join_async_spawn", (1, 2), 1, True, False), ("try_join_async_spawn", (2, 1), 1, True, False),
+                  ("join_async", (2, 2), 2, True, True), ("join_async", (1, 2, 2), 1, True, True), ("join_async", (2, 2, 1), 1, True, True), ("join_async", (3, 1, 2), 1, True, True),
+                  ("join_async", (3, 3), 1, True, True), ("try_join_async", (2, 2), 1, True, True), ("join_async_spawn", (2, 2), 1, True, True), ("try_join_async_spawn", (2, 2), 1, True, True)]
+    if tier == "quick":
+        aprofs = [a + (True,) for a in aprofs]
+    for macro, prof, gates, heavy, cheap in aprofs:
         i += 1
-        ps.append(make("p%04d" % i, macro, prof, i, seed, gates=gates, heavy=heavy, cheap=(tier == "quick")))
+        ps.append(make("p%04d" % i, macro, prof, i, seed, gates=gates, heavy=heavy, cheap=cheap))
     return ps
 
 
@@ -115,7 +120,7 @@ META = dict(
     rule="one program per (macro kind, depth profile with >= 2 steps); carrier, step operators, block captures (p=0.5) and second actions (p=0.35) vary with index and seed; "
          "sync/thread programs packed 6 per query, async programs one per query; non-trivial = passed with witnesses (thread early+late, both gate orders); distinct = distinct invocation texts",
     functions_encoded=["expansions of all eight macro kinds (JoinOutput::new step splitting, generate_steps nesting, generate_step joins, thread join before destructuring, futures join!/try_join!)"],
-    bounds=["branches <= 3 (quick) / 4 (thorough), steps <= 3", "async: profiles listed in gen_c03.py, gates pending <= 1 (quick) / <= 2 (thorough)",
+    bounds=["branches <= 3 (quick) / 4 (thorough), steps <= 3", "async: profiles listed in gen_c03.py, gates pending <= 1 (quick) / <= 2 (thorough); real pending points in later steps only where at most one branch has a later step, otherwise later steps are synchronous callbacks under FutureExt::map",
             "thread placement in {earliest, latest} per thread, bodies atomic", "task placement: polled eagerly at spawn or only through its handle"],
     outside=["interleavings inside a thread body", "more than two pending polls per gate", "real tokio / OS scheduling"],
     assumptions=["thread and tokio models of DESIGN.md 2.2", "format! model returns an empty string (names are not observed here)"],
